@@ -60,8 +60,9 @@ def _build(order, private_table, second_lf, vr_each, xk):
             m['frames'][name].append((counts[t], x, len(recs)))
             recs.append(F.record(False, 0, F.iflr(name, counts[t], data), new_vr=vr_each))
         if lf == 0:
-            m['tables'].append((5, b'PARAMETER', 1, len(recs)))
-            recs.append(F.record(True, 5, F.parameter(0), new_vr=vr_each))
+            m['tables'].append((5, b'PARAMETER', 2, len(recs)))
+            recs.append(F.record(True, 5, F.eflr(b'PARAMETER', [(b'LONG-NAME', F.ASCII), (b'VALUES', E.UNORM)],
+                                                 [((2, 0, b'P0'), [[b'121 \xb0C'], [300]]), ((2, 0, b'P1'), [[b'57.3 \xb5s/ft <&>'], [301]])]), new_vr=vr_each))
         model.append(m)
     data, layout = F.build(recs)
     return data, layout, model
@@ -78,6 +79,34 @@ def _expand(elem, conv):
     if int(elem.get('count')) != len(out) or int(elem.get('rle_len')) != len(elem):
         return None
     return out
+
+
+def _same_objects(xml_objs, mem_objs):
+    for xo, (name, attrs) in zip(xml_objs, mem_objs):
+        if (int(xo.get('O')), int(xo.get('C')), xo.get('I')) != (name.O, name.C, name.I.decode('latin-1')):
+            return False
+        xattrs = xo.findall('Attribute')
+        if len(xattrs) != len(attrs):
+            return False
+        for xa, (label, values) in zip(xattrs, attrs):
+            if xa.get('label') != label.decode('latin-1'):
+                return False
+            xvals = list(xa)
+            if len(xvals) != (len(values) if values is not None else 0):
+                return False
+            for xv, v in zip(xvals, values or []):
+                if isinstance(v, bytes):
+                    if xv.tag != 'Value' or xv.get('type') != 'bytes' or xv.get('value') != v.decode('latin-1'):
+                        return False
+                elif isinstance(v, (int, float)):
+                    if xv.tag != 'Value' or xv.get('value') != str(v):
+                        return False
+                elif hasattr(v, 'O') and hasattr(v, 'I'):
+                    if xv.tag != 'ObjectName' or (int(xv.get('O')), int(xv.get('C')), xv.get('I')) != (v.O, v.C, v.I.decode('latin-1')):
+                        return False
+                elif xv.tag != 'Value' or xv.get('value') != str(v):
+                    return False
+    return True
 
 
 def _floats_equal(got, want):
@@ -105,6 +134,7 @@ def _index_xml(order, private_table, second_lf, vr_each, xk, private):
         with LogicalFile.LogicalIndex(path) as li:
             IndexXML.write_logical_file_sequence_to_xml(li, out, private)
             vr_positions = list(li.visible_record_positions)
+            memory = [[[(o.name, [(a.label, a.value) for a in o.attrs]) for o in pe.eflr.objects] for pe in lf.eflrs] for lf in li.logical_files]
         mark.hit()
         try:
             root = ET.fromstring(out.getvalue().split('?>', 1)[1])
@@ -126,6 +156,9 @@ def _index_xml(order, private_table, second_lf, vr_each, xk, private):
                 # the objects of a private table are listed only on request; those of public tables always
                 want_objs = nobj if (private or lrt < 128) else 0
                 if len(e.findall('Object')) != want_objs:
+                    return False
+                # every listed object carries the attribute values the in-memory table holds (text as Latin-1, numbers in decimal)
+                if want_objs and not _same_objects(e.findall('Object'), memory[model.index(m)][eflrs.index(e)]):
                     return False
             # one entry per frame type with its channels and the run-length encoded frame numbers, positions and X values
             lp = lfe.find('LogPass')
